@@ -13,8 +13,15 @@ def _partial(chk):
     reeval_replay.run(chk, stride=16 if chk.quick else 2)
 
 
+def _twin(run):
+    # every third program together with a copy of its module in the same session (equal code objects, other file)
+    if run["h"] % 3 == 0:
+        run["twin"] = True
+        run["id"] += "@twin"
+
+
 def run():
-    chk = core_check("C14", cfgs=("B", "A"), quick_keep=16, thorough_keep=6, keep_b=(3, 1), extra=_partial, traces=(3000, 60000))
+    chk = core_check("C14", annotate=_twin, cfgs=("B", "A"), quick_keep=16, thorough_keep=6, keep_b=(3, 1), extra=_partial, traces=(3000, 60000))
     if isinstance(chk, int):
         return chk
     chk.assumptions += ["placements: own function, all calls on one line (lambdas), one function holding all calls, "
